@@ -27,8 +27,11 @@ def sh(cmd, **kw):
 def evaluate(name, tier, jobs, demo, extra_props):
     d = os.path.join(HERE, "seeded", name)
     meta = json.load(open(os.path.join(d, "meta.json")))
-    root = tempfile.mkdtemp(prefix="seeded_", dir="/tmp")
     out = {"name": name, "property": meta["property"]}
+    if meta.get("obsolete"):
+        out.update(obsolete=True, caught=False)
+        return out
+    root = tempfile.mkdtemp(prefix="seeded_", dir="/tmp")
     try:
         shutil.copytree(os.path.join(REPO, "pfhedge"), os.path.join(root, "pfhedge"))
         p = sh(["git", "apply", "--unsafe-paths", "--directory", root, os.path.join(d, "patch.diff")], cwd=root)
